@@ -57,6 +57,18 @@ Defs == [
   \* two classes holding the same alias object: whichever is built second meets the alias as a revisit
   A1  |-> [flavour |-> "dataclass",    module |-> "m1", py |-> "A1",  fields |-> << <<"bag", Wrap("alias", Coll("list", "builtin", P("Decimal"))), FALSE>> >>],
   A2  |-> [flavour |-> "dataclass",    module |-> "m1", py |-> "A2",  fields |-> << <<"bag", Wrap("alias", Coll("list", "builtin", P("Decimal"))), FALSE>>, <<"n", P("int"), FALSE>> >>],
+  \* the typing_extensions spelling of TypedDict (another class than typing.TypedDict on 3.12)
+  TD4 |-> [flavour |-> "typeddict_te",  module |-> "m1", py |-> "TD4", fields |-> << <<"x", P("int"), FALSE>>, <<"d", P("date"), FALSE>> >>],
+  \* a total body on top of a total=False base: nick stays optional
+  TD5 |-> [flavour |-> "typeddict_inh2", module |-> "m1", py |-> "TD5", fields |-> << <<"id", P("int"), FALSE>>, <<"nick", P("str"), TRUE>> >>],
+  \* inheritance: a slotted dataclass on a slotted dataclass, a dataclass on a dataclass (all fields listed, inherited first)
+  S2  |-> [flavour |-> "dc_slots",     module |-> "m1", py |-> "S2",  base |-> "D2",
+           fields |-> << <<"x", P("float"), FALSE>>, <<"d", Cls("D1"), FALSE>>, <<"extra", P("Decimal"), FALSE>> >>],
+  D6  |-> [flavour |-> "dataclass",    module |-> "m1", py |-> "D6",  base |-> "D1",
+           fields |-> << <<"a", P("int"), FALSE>>, <<"b", P("str"), FALSE>>, <<"c", P("date"), FALSE>> >>],
+  \* an Optional field whose default is not None (an explicit None must stay None)
+  D7  |-> [flavour |-> "dataclass",    module |-> "m1", py |-> "D7",  fields |-> << <<"owner", P("str"), FALSE>>, <<"limit", Opt(P("int")), TRUE, "100">> >>],
+  N5  |-> [flavour |-> "namedtuple",   module |-> "m1", py |-> "N5",  fields |-> << <<"a", P("int"), FALSE>>, <<"b", Opt(P("int")), TRUE, "-1">> >>],
   \* a second recursive class with the Python name of R1, in another module, with other field types
   R1b |-> [flavour |-> "dataclass",    module |-> "m2", py |-> "R1",  fields |-> << <<"v", P("str"), FALSE>>, <<"nxt", Opt(Cls("R1b")), TRUE>> >>]
 ]
@@ -67,7 +79,9 @@ Prims == {"int", "bool", "float", "str", "Decimal", "Fraction", "UUID", "PurePos
 BytesPrims == {"bytes", "bytearray"}
 HashPrims == Prims \ {"Pattern"}
 Enums == {"Color", "Level", "Tag"}
-Lits == {Lit(<<LInt("1"), LStr("a")>>), Lit(<<LStr("x"), LNone>>), Lit(<<LBool("True"), LInt("2")>>)}
+\* (the last three mix a text with the value that text decodes to)
+Lits == {Lit(<<LInt("1"), LStr("a")>>), Lit(<<LStr("x"), LNone>>), Lit(<<LBool("True"), LInt("2")>>),
+         Lit(<<LStr("1"), LInt("1")>>), Lit(<<LStr("null"), LNone>>), Lit(<<LStr("true"), LBool("True")>>)}
 
 CollSpell == {<<"list", "builtin">>, <<"list", "typing">>, <<"list", "Sequence">>, <<"list", "abcSequence">>,
               <<"list", "MutableSequence">>, <<"list", "Collection">>, <<"list", "Iterable">>, <<"list", "abcIterable">>,
